@@ -6,7 +6,7 @@
 From Coq Require Import ZArith String List Bool Arith Lia.
 From J2O Require Import PyLib Tensor Graph Redirect Preserve Reshape ElemCommute ChainSim ReshapePairPass ChainFacts C02Opt ElemSem
   ElemBroadcast TransposePairPass TransposeRegion TransposeAddForestPass TransposeAddForestSound TransposeReducePass
-  TransposeReduceSound IdReshapePass OrphanPass OptGraph PropagateShapes SwishPass DropoutPass RefreshSound DcePass.
+  TransposeReduceSound IdReshapePass OrphanPass OptGraph PropagateShapes SwishPass DropoutPass RefreshSound DcePass TransposeRefresh.
 From J2O Require Annot Onnx.
 From J2OGen Require GenShapes.
 From J2OGen Require Import GenCast GenOpt GenOptPasses.
@@ -102,13 +102,6 @@ Definition o_step_R (g : ograph) : option ograph :=
       end
   end.
 
-(* the Transpose folds call _refresh_elementwise_output_shape(node, rewired=True) on the members they re-wire; that part is
-   not modelled by TransposePairPass.v: the declared dims after a fold are an abstract function [tsh] of the graph before
-   it, assumed TRUE of the rewritten graph (hypothesis [refresh_ok] below) *)
-Definition mergeT (tsh : ograph -> name -> option (list dim)) (g : ograph) (gx : tgraph) : ograph :=
-  mkOG (tg_nodes gx) (tg_outputs gx) (o_dtype g) (tsh g) (tg_scalar gx) (o_crank g) (o_const g) (o_bool g) (o_fc g).
-Definition o_step_F tsh (g : ograph) : option ograph := option_map (mergeT tsh g) (addforest_step (projT g)).
-Definition o_step_T tsh (g : ograph) : option ograph := option_map (mergeT tsh g) (transpose_pair_step (projT g)).
 Definition mergeP (g : ograph) (gx : pgraph) : ograph :=
   mkOG (pg_nodes gx) (pg_outputs gx) (o_dtype g) (pg_shape gx) (pg_scalar gx) (pg_crank gx) (o_const g) (o_bool g) (o_fc g).
 Definition o_step_P (g : ograph) : option ograph := option_map (mergeP g) (reshape_pair_step (projP g)).
@@ -130,8 +123,6 @@ Proof. unfold transpose_pair_step. destruct (decide_step g); [|discriminate]. in
 Lemma addforest_step_scalar g g' : addforest_step g = Some g' -> tg_scalar g' = tg_scalar g.
 Proof. unfold addforest_step. destruct (first_some _ _); [|discriminate]. intro H. injection H as <-. reflexivity. Qed.
 
-Lemma projT_mergeT tsh g gx : projT (mergeT tsh g gx) = gx.
-Proof. destruct gx. reflexivity. Qed.
 Lemma projP_mergeP g gx : projP (mergeP g gx) = gx.
 Proof. destruct gx. reflexivity. Qed.
 
@@ -374,52 +365,224 @@ Section PSound.
   Qed.
 
   (* ================================================================ the two Transpose fold passes *)
-  (* the declared dims after a fold (the part of the real passes that TransposePairPass.v does not model) *)
-  Variables tshF tshT : ograph -> name -> option (list dim).
-  Hypothesis refresh_ok_F : forall g gx e ef, padm g e -> evalg (o_nodes g) e = Some ef -> addforest_step (projT g) = Some gx ->
-    shape_ok (tshF g) (tg_nodes gx) e.
-  Hypothesis refresh_ok_T : forall g gx e ef, padm g e -> evalg (o_nodes g) e = Some ef -> transpose_pair_step (projT g) = Some gx ->
-    shape_ok (tshT g) (tg_nodes gx) e.
+  (* Their value-level soundness is TransposeRegion.v / TransposeAddForestSound.v.  The declared dims after a fold are the
+     rewired refresh of TransposeRefresh.v; they are TRUE (refresh_members_true below) given that the fold changes no value
+     outside the members it moves and that those members are elementwise: [frame_F] is proved
+     (TransposeAddForestSound.addforest_step_frame), [frame_T] is what TransposeRegion.v / TransposePairPass.v establish
+     internally for the pair pass but do not export yet. *)
+  Definition frame_spec (ns' : list node) (changed : list name) (e ef : env V) : Prop :=
+    (exists ef', evalg ns' e = Some ef' /\ forall x w, ef' x = Some w -> exists v, ef x = Some v /\ (In x changed \/ teq v w)) /\
+    (forall n y, In n ns' -> In y (n_outs n) -> In y changed -> is_elem n = true /\ n_caps n = []) /\
+    (forall y, In y changed -> In y (defs ns')).
+  Hypothesis frame_T : forall g act e ef, padm g e -> evalg (o_nodes g) e = Some ef -> decide_step (projT g) = Some act ->
+    proved_kind_all (projT g) act = true -> frame_spec (tg_nodes (apply_taction (projT g) act)) (refreshed_outs true act) e ef.
+  Lemma o_refresh_rw_frame g n : o_nodes (o_refresh_rw g n) = o_nodes g /\ o_outputs (o_refresh_rw g n) = o_outputs g /\
+    o_scalar (o_refresh_rw g n) = o_scalar g /\ o_crank (o_refresh_rw g n) = o_crank g /\ o_const (o_refresh_rw g n) = o_const g /\
+    o_bool (o_refresh_rw g n) = o_bool g /\ o_fc (o_refresh_rw g n) = o_fc g.
+  Proof. unfold o_refresh_rw. repeat split. Qed.
 
-  Lemma padm_mergeT tsh g gx e : padm g e -> tadmissible A sem gx e -> tg_scalar gx = o_scalar g -> shape_ok (tsh g) (tg_nodes gx) e ->
-    padm (mergeT tsh g gx) e.
+  (* the declared dims of a pgraph after ReshapePairPass.refresh: only the first output's entry may change *)
+  Lemma refresh_other gp n x : (forall y r, n_outs n = y :: r -> x <> y) -> pg_shape (refresh gp n) x = pg_shape gp x.
   Proof.
-    intros [_ _ Hsc Hcr Hco Hbo Hfc] Ht Hs Hsh. split; cbn [mergeT o_nodes o_shape o_scalar o_crank o_const o_bool o_fc]; auto.
-    - exact (tadm_ssa _ _ _ _ Ht).
+    intro H. unfold refresh. destruct (n_outs n) as [|y r] eqn:Eo; [reflexivity|]. specialize (H y r eq_refl).
+    assert (Hput : forall os, pg_shape (put_shape gp y os) x = pg_shape gp x).
+    { intro os. cbn [put_shape pg_shape]. destruct (Nat.eqb_spec x y); [contradiction | reflexivity]. }
+    unfold set_shape, clear_shape. destruct (String.eqb (n_op n) "CastLike").
+    - destruct (n_ins n); [reflexivity|]. destruct (pg_shape gp n0); apply Hput.
+    - destruct (shape_source gp (n_ins n)); [|apply Hput]. destruct (mapM (pg_shape gp) (n_ins n)); [|apply Hput].
+      destruct (broadcast_dims l); apply Hput.
+  Qed.
+
+  Section RefreshTrue.
+    Variables (ns' : list node) (e ef' : env V) (sigma : string -> nat) (changed : list name).
+    Hypothesis Hssa' : ssa V ns' e.
+    Hypothesis Hev' : evalg ns' e = Some ef'.
+    Hypothesis Helem : forall n y, In n ns' -> In y (n_outs n) -> In y changed -> is_elem n = true /\ n_caps n = [].
+    Definition sh_true (sh : name -> option (list dim)) (P : name -> Prop) : Prop :=
+      forall x ds v, P x -> sh x = Some ds -> ef' x = Some v -> Forall2 (dim_ok sigma) ds (shape v).
+
+    (* one refresh of a member all of whose operands have true declared dims *)
+    Lemma refresh_one_true (g : ograph) n (P : name -> Prop) : o_nodes g = ns' -> In n ns' -> (exists y, In y (n_outs n) /\ In y changed) ->
+      sh_true (o_shape g) P -> (forall x, In x (n_ins n) -> P x) ->
+      sh_true (o_shape (o_refresh_rw g n)) (fun x => P x \/ In x (n_outs n)).
+    Proof.
+      intros Hns Hn (y0 & Hy0 & Hch) Htrue Hops.
+      destruct (Helem n y0 Hn Hy0 Hch) as [Hel Hcaps].
+      destruct (eval_consistent V sem _ _ _ n Hssa' Hev' Hn) as (vs & oo & Hl & Hs & Hlo).
+      unfold n_uses in Hl. rewrite Hcaps, app_nil_r in Hl.
+      (* the node has one output, whose value has the shape the operator's rule gives *)
+      assert (Hone : exists y yv, n_outs n = [y] /\ ef' y = Some yv /\
+                 ((nop n = "CastLike"%string /\ exists x t, vs = [x; t] /\ shape yv = shape x) \/
+                  (nop n <> "CastLike"%string /\ bcast_ok vs /\ shape yv = bshape vs))).
+      { assert (Hout1 : forall yv, oo = [yv] -> exists y, n_outs n = [y] /\ ef' y = Some yv).
+        { intros yv ->. destruct (n_outs n) as [|y [|y2 r]]; simpl in Hlo; try discriminate.
+          - destruct (ef' y) eqn:E; [|discriminate]. injection Hlo as ->. eauto.
+          - destruct (ef' y); [|discriminate]. destruct (ef' y2); [|discriminate]. destruct (lookups V ef' r); discriminate. }
+        destruct (elem_in_pw_all _ Hel) as [Hop|Hop].
+        - destruct (Hcl _ _ _ _ Hop Hs) as (x & t & yv & -> & -> & Hyv). destruct (Hout1 yv eq_refl) as (y & Ho & Ey).
+          exists y, yv. split; [exact Ho|]. split; [exact Ey|]. left. split; [exact Hop|]. exists x, t. split; [reflexivity|]. exact (proj1 Hyv).
+        - destruct (Hpw _ _ _ _ Hop Hs) as (Hbok & yv & -> & Hyv). destruct (Hout1 yv eq_refl) as (y & Ho & Ey).
+          exists y, yv. split; [exact Ho|]. split; [exact Ey|]. right. split.
+          + intro E. unfold nop in Hop. unfold nop in E. rewrite E in Hop. vm_compute in Hop. discriminate.
+          + split; [exact Hbok | exact (proj1 Hyv)]. }
+      destruct Hone as (y & yv & Ho & Ey & Hrule).
+      intros x ds v Hx Hds Hv.
+      destruct (Nat.eq_dec x y) as [->|Hne].
+      2:{ (* another name: its entry is untouched *)
+          assert (Hsm2 : o_shape (o_refresh_rw g n) x = o_shape g x).
+          { unfold o_refresh_rw. cbn [o_shape]. apply refresh_other. cbn [n_outs]. intros y1 r1 E. rewrite Ho in E. injection E as <- _. exact Hne. }
+          rewrite Hsm2 in Hds. destruct Hx as [Hx|Hx]; [exact (Htrue x ds v Hx Hds Hv)|]. rewrite Ho in Hx. destruct Hx as [E|[]]. congruence. }
+      rewrite Ey in Hv. injection Hv as <-.
+      unfold o_refresh_rw in Hds. cbn [o_shape] in Hds. unfold refresh in Hds. cbn [n_outs n_op n_ins] in Hds. rewrite Ho in Hds.
+      fold (nop n) in Hds.
+      assert (Hput : forall os ds0, pg_shape (put_shape (projP g) y os) y = Some ds0 -> os = Some ds0).
+      { intros os ds0 H. cbn [put_shape pg_shape] in H. now rewrite Nat.eqb_refl in H. }
+      unfold set_shape, clear_shape in Hds.
+      destruct Hrule as [(Hop & x0 & t0 & -> & Hsh)|(Hop & Hbok & Hsh)].
+      - assert (Hcl1 : String.eqb (nop n) "CastLike" = true) by (rewrite Hop; apply String.eqb_refl). rewrite Hcl1 in Hds.
+        destruct (n_ins n) as [|i0 ir] eqn:Ei; [simpl in Hl; discriminate|]. simpl in Hl. destruct (ef' i0) as [v0|] eqn:E0; [|discriminate].
+        destruct (lookups V ef' ir); [|discriminate]. injection Hl as <- _.
+        cbn [projP pg_shape] in Hds. destruct (o_shape g i0) as [s0|] eqn:Es0.
+        + apply Hput in Hds. injection Hds as <-. rewrite Hsh. apply (Htrue i0 s0 v0); auto. apply Hops. now left.
+        + apply Hput in Hds. discriminate.
+      - assert (Hcl0 : String.eqb (nop n) "CastLike" = false) by (now apply String.eqb_neq). rewrite Hcl0 in Hds.
+        destruct (shape_source (projP g) (n_ins n)); [|apply Hput in Hds; discriminate].
+        cbn [projP pg_shape] in Hds. destruct (mapM (o_shape g) (n_ins n)) as [cands|] eqn:Em; [|apply Hput in Hds; discriminate].
+        destruct (broadcast_dims cands) as [m|] eqn:Eb; [|apply Hput in Hds; discriminate]. apply Hput in Hds. injection Hds as <-.
+        rewrite Hsh. apply (broadcast_dims_bshape A sigma cands vs m); auto.
+        clear - Em Hl Htrue Hops. revert cands vs Em Hl Hops. induction (n_ins n) as [|x r IH]; simpl; intros cands vs Em Hl Hops.
+        + injection Em as <-. injection Hl as <-. constructor.
+        + destruct (o_shape g x) as [ds|] eqn:Es; [|discriminate]. destruct (mapM (o_shape g) r) as [cr|]; [|discriminate]. injection Em as <-.
+          destruct (ef' x) as [v|] eqn:Ex; [|discriminate]. destruct (lookups V ef' r) as [vr|]; [|discriminate]. injection Hl as <-.
+          constructor; [apply (Htrue x ds v); auto|]. apply IH; auto.
+    Qed.
+
+    Hypothesis Hchdef : forall y, In y changed -> In y (defs ns').
+    Definition rf_step (g1 : ograph) (n : node) : ograph :=
+      if existsb (fun y => existsb (Nat.eqb y) changed) (n_outs n) then o_refresh_rw g1 n else g1.
+
+    Lemma def_before_use pre n post x : ns' = pre ++ n :: post -> In x (n_ins n) -> In x (defs ns') -> In x (defs pre).
+    Proof.
+      intros Hsplit Hx Hd. pose proof Hev' as Hev2. rewrite Hsplit, eval_app in Hev2. destruct (evalg pre e) as [em|] eqn:Epre; [|discriminate].
+      cbn [eval] in Hev2. destruct (step V sem em n) as [e1|] eqn:Es; [|discriminate].
+      assert (Hdef : em x <> None) by (apply (step_reads A sem em n e1 x Es); unfold n_uses; apply in_or_app; now left).
+      destruct (eval_dom V sem pre e em x Epre Hdef) as [He|Hp]; [|exact Hp]. rewrite (proj2 Hssa' x Hd) in He. congruence.
+    Qed.
+
+    Lemma refresh_fold_true : forall post pre g1, ns' = pre ++ post -> o_nodes g1 = ns' ->
+      sh_true (o_shape g1) (fun x => ~ In x changed \/ In x (defs pre)) ->
+      sh_true (o_shape (fold_left rf_step post g1)) (fun _ => True) /\ o_nodes (fold_left rf_step post g1) = ns'.
+    Proof.
+      induction post as [|n post IH]; intros pre g1 Hsplit Hns Htrue; cbn [fold_left].
+      - split; [|exact Hns]. rewrite app_nil_r in Hsplit. subst pre. intros x ds v _ Hds Hv. apply (Htrue x ds v); auto.
+        destruct (in_dec Nat.eq_dec x changed) as [Hc|Hc]; [right; now apply Hchdef | now left].
+      - assert (Hn : In n ns') by (rewrite Hsplit; apply in_or_app; right; now left).
+        assert (Hsplit' : ns' = (pre ++ [n]) ++ post) by (rewrite <- app_assoc; exact Hsplit).
+        assert (Hdefs' : forall x, In x (defs (pre ++ [n])) <-> In x (defs pre) \/ In x (n_outs n)).
+        { intro x. unfold defs. rewrite flat_map_app. cbn [flat_map]. rewrite app_nil_r. rewrite in_app_iff. tauto. }
+        destruct (existsb (fun y => existsb (Nat.eqb y) changed) (n_outs n)) eqn:Em;
+          [assert (Erf : rf_step g1 n = o_refresh_rw g1 n) by (unfold rf_step; now rewrite Em) | assert (Erf : rf_step g1 n = g1) by (unfold rf_step; now rewrite Em)]; rewrite Erf.
+        + apply existsb_exists in Em as (y & Hy & Hyc). apply existsb_exists in Hyc as (y' & Hy' & E). apply Nat.eqb_eq in E. subst y'.
+          apply (IH (pre ++ [n]) (o_refresh_rw g1 n) Hsplit'); [rewrite (proj1 (o_refresh_rw_frame g1 n)); exact Hns |].
+          assert (Hr : sh_true (o_shape (o_refresh_rw g1 n)) (fun x => (~ In x changed \/ In x (defs pre)) \/ In x (n_outs n))).
+          { apply refresh_one_true; auto; [eauto|]. intros x Hx. destruct (in_dec Nat.eq_dec x changed) as [Hc|Hc]; [right | now left].
+            exact (def_before_use pre n post x Hsplit Hx (Hchdef x Hc)). }
+          intros x ds v Hx. apply Hr. destruct Hx as [Hx|Hx]; [left; now left|]. apply Hdefs' in Hx as [Hx|Hx]; [left; now right | now right].
+        + apply (IH (pre ++ [n]) g1 Hsplit' Hns). intros x ds v Hx. apply Htrue. destruct Hx as [Hx|Hx]; [now left|].
+          apply Hdefs' in Hx as [Hx|Hx]; [now right|]. left. intro Hc.
+          assert (existsb (fun y => existsb (Nat.eqb y) changed) (n_outs n) = true).
+          { apply existsb_exists. exists x. split; auto. apply existsb_exists. exists x. split; auto. apply Nat.eqb_refl. }
+          congruence.
+    Qed.
+  End RefreshTrue.
+  Lemma rf_fold_frame outs : forall l g,
+    let g2 := fold_left (fun g1 n => if existsb (fun y => existsb (Nat.eqb y) outs) (n_outs n) then o_refresh_rw g1 n else g1) l g in
+    o_nodes g2 = o_nodes g /\ o_outputs g2 = o_outputs g /\ o_scalar g2 = o_scalar g /\ o_crank g2 = o_crank g /\ o_const g2 = o_const g /\
+    o_bool g2 = o_bool g /\ o_fc g2 = o_fc g.
+  Proof.
+    induction l as [|n l IH]; intro g; cbn [fold_left]; [repeat split|].
+    destruct (existsb (fun y => existsb (Nat.eqb y) outs) (n_outs n)).
+    - destruct (IH (o_refresh_rw g n)) as (H1 & H2 & H3 & H4 & H5 & H6 & H7). pose proof (o_refresh_rw_frame g n) as (F1 & F2 & F3 & F4 & F5 & F6 & F7).
+      repeat split; congruence.
+    - apply IH.
+  Qed.
+  Lemma o_refresh_members_frame outs g : let g2 := o_refresh_members outs g in
+    o_nodes g2 = o_nodes g /\ o_outputs g2 = o_outputs g /\ o_scalar g2 = o_scalar g /\ o_crank g2 = o_crank g /\ o_const g2 = o_const g /\
+    o_bool g2 = o_bool g /\ o_fc g2 = o_fc g.
+  Proof. exact (rf_fold_frame outs (o_nodes g) g). Qed.
+
+  (* a fold on the common graph: the value-level result [gx] with the members refreshed *)
+  Lemma refreshed_padm g e ef gx changed : padm g e -> evalg (o_nodes g) e = Some ef -> tadmissible A sem gx e -> tg_scalar gx = o_scalar g ->
+    frame_spec (tg_nodes gx) changed e ef ->
+    padm (o_refresh_members changed (mkOG (tg_nodes gx) (tg_outputs gx) (o_dtype g) (o_shape g) (tg_scalar gx) (o_crank g) (o_const g) (o_bool g) (o_fc g))) e.
+  Proof.
+    intros Hadm Hev Ht Hs ((ef' & Hev' & Hrel) & Helem & Hchdef).
+    set (g0 := mkOG (tg_nodes gx) (tg_outputs gx) (o_dtype g) (o_shape g) (tg_scalar gx) (o_crank g) (o_const g) (o_bool g) (o_fc g)).
+    pose proof (o_refresh_members_frame changed g0) as (F1 & F2 & F3 & F4 & F5 & F6 & F7).
+    destruct Hadm as [Hssa [sigma Hsh] Hsc Hcr Hco Hbo Hfc]. pose proof (tadm_ssa _ _ _ _ Ht) as Hssa'.
+    split; rewrite ?F1, ?F3, ?F4, ?F5, ?F6, ?F7; cbn [g0 o_nodes o_scalar o_crank o_const o_bool o_fc]; auto.
+    - exists sigma. intros ef2 x ds v Hev2 Hds Hv. rewrite Hev' in Hev2. injection Hev2 as <-.
+      assert (H0 : sh_true ef' sigma (o_shape g0) (fun x => ~ In x changed \/ In x (defs []))).
+      { intros x0 ds0 v0 [Hx|[]] Hds0 Hv0. destruct (Hrel x0 v0 Hv0) as (v1 & Ev1 & [Hc|Hteq]); [contradiction|].
+        rewrite <- (proj1 Hteq). exact (Hsh ef x0 ds0 v1 Hev Hds0 Ev1). }
+      destruct (refresh_fold_true (tg_nodes gx) e ef' sigma changed Hssa' Hev' Helem Hchdef (tg_nodes gx) [] g0 eq_refl eq_refl H0) as [Htrue _].
+      exact (Htrue x ds v I Hds Hv).
     - rewrite Hs. exact Hsc.
   Qed.
 
-  Lemma step_ok_F g g' e0 e : padm g e -> pext g e0 e -> o_step_F tshF g = Some g' -> forall o, rung (o_graph g) e = Some o ->
+  Lemma frame_F g f e ef : padm g e -> evalg (o_nodes g) e = Some ef ->
+    first_some (decide_addforest (projT g)) (o_nodes g) = Some f -> frame_spec (tg_nodes (apply_forest (projT g) f)) (map out_of (f_es f)) e ef.
+  Proof.
+    intros Hadm Hev Efs.
+    exact (addforest_step_frame A sem sem_proper Htr F Hpw Fcl Hcl Hcl_type Hacc (projT g) f e ef (padm_tadm g e Hadm) Hev Efs).
+  Qed.
+
+  Lemma step_ok_F g g' e0 e : padm g e -> pext g e0 e -> o_step_F g = Some g' -> forall o, rung (o_graph g) e = Some o ->
     exists e' o', pext g' e0 e' /\ padm g' e' /\ rung (o_graph g') e' = Some o' /\ Forall2 teq o o'.
   Proof.
     intros Hadm Hext Hstep o Hrun. unfold o_step_F in Hstep.
-    destruct (addforest_step (projT g)) as [gx|] eqn:Es; [|discriminate]. injection Hstep as <-.
+    destruct (first_some (decide_addforest (projT g)) (o_nodes g)) as [f|] eqn:Efs; [|discriminate]. injection Hstep as <-.
     destruct (run_eval _ _ _ Hrun) as [ef Hev]. cbn [o_graph g_nodes] in Hev.
     pose proof (padm_tadm g e Hadm) as Ht.
-    pose proof (addforest_step_sound A sem sem_proper Htr F Hpw Fcl Hcl Hcl_type Hacc (projT g) gx e Ht Es) as Href.
-    pose proof (addforest_step_admissible A sem sem_proper Htr F Hpw Fcl Hcl Hcl_type Hacc (projT g) gx e ef Ht Hev Es) as Ht'.
+    assert (Es : addforest_step (projT g) = Some (apply_forest (projT g) f)) by (unfold addforest_step; cbn [projT tg_nodes]; now rewrite Efs).
+    pose proof (addforest_step_sound A sem sem_proper Htr F Hpw Fcl Hcl Hcl_type Hacc (projT g) _ e Ht Es) as Href.
+    pose proof (addforest_step_admissible A sem sem_proper Htr F Hpw Fcl Hcl Hcl_type Hacc (projT g) _ e ef Ht Hev Es) as Ht'.
     destruct (Href o Hrun) as (o' & Hrun' & Ho').
-    exists e, o'. split; [apply (pext_const g); [reflexivity | reflexivity | exact Hext]|]. split; [|split; [exact Hrun' | exact Ho']].
-    apply padm_mergeT; auto; [exact (addforest_step_scalar _ _ Es) | exact (refresh_ok_F g gx e ef Hadm Hev Es)].
+    set (gx := apply_forest (projT g) f) in *.
+    set (g0 := mkOG (tg_nodes gx) (tg_outputs gx) (o_dtype g) (o_shape g) (tg_scalar gx) (o_crank g) (o_const g) (o_bool g) (o_fc g)).
+    pose proof (o_refresh_members_frame (map out_of (f_es f)) g0) as (F1 & F2 & _ & _ & F5 & F6 & _).
+    exists e, o'. split; [apply (pext_const g); [exact F5 | exact F6 | exact Hext]|]. split; [|split; [|exact Ho']].
+    - apply (refreshed_padm g e ef gx); auto. exact (frame_F g f e ef Hadm Hev Efs).
+    - change (rung (o_graph (o_refresh_members (map out_of (f_es f)) g0)) e = Some o').
+      assert (Hgr : o_graph (o_refresh_members (map out_of (f_es f)) g0) = tg_graph gx) by (unfold o_graph, tg_graph; rewrite F1, F2; reflexivity).
+      rewrite Hgr. exact Hrun'.
   Qed.
 
-  Lemma step_ok_T k g g' e0 e : kinds_along (S k) (projT g) = true -> padm g e -> pext g e0 e -> o_step_T tshT g = Some g' ->
+  Lemma step_ok_T k g g' e0 e : kinds_along (S k) (projT g) = true -> padm g e -> pext g e0 e -> o_step_T true g = Some g' ->
     forall o, rung (o_graph g) e = Some o ->
     kinds_along k (projT g') = true /\
     exists e' o', pext g' e0 e' /\ padm g' e' /\ rung (o_graph g') e' = Some o' /\ Forall2 teq o o'.
   Proof.
     intros Hk Hadm Hext Hstep o Hrun. unfold o_step_T in Hstep.
-    destruct (transpose_pair_step (projT g)) as [gx|] eqn:Es; [|discriminate]. injection Hstep as <-.
+    destruct (decide_step (projT g)) as [act|] eqn:Ed; [|discriminate]. injection Hstep as <-.
     destruct (run_eval _ _ _ Hrun) as [ef Hev]. cbn [o_graph g_nodes] in Hev.
     pose proof (padm_tadm g e Hadm) as Ht.
-    pose proof Es as Es0. unfold transpose_pair_step in Es. destruct (decide_step (projT g)) as [act|] eqn:Ed; [|discriminate]. injection Es as <-.
     cbn [kinds_along] in Hk. rewrite Ed in Hk. apply andb_prop in Hk as [Hk1 Hk2].
     pose proof (transpose_pair_action_sound_all A sem sem_proper Htr F Hpw Fcl Hcl Hcl_type Hacc (projT g) act e Ht Ed Hk1) as Href.
     pose proof (transpose_pair_action_admissible A sem sem_proper Htr F Hpw Fcl Hcl Hcl_type Hacc (projT g) act e ef Ht Hev Ed Hk1) as Ht'.
     destruct (Href o Hrun) as (o' & Hrun' & Ho').
-    split; [rewrite projT_mergeT; exact Hk2|].
-    exists e, o'. split; [apply (pext_const g); [reflexivity | reflexivity | exact Hext]|]. split; [|split; [exact Hrun' | exact Ho']].
-    apply padm_mergeT; auto; [apply apply_taction_scalar | exact (refresh_ok_T g _ e ef Hadm Hev Es0)].
+    set (gx := apply_taction (projT g) act) in *.
+    set (g0 := mkOG (tg_nodes gx) (tg_outputs gx) (o_dtype g) (o_shape g) (tg_scalar gx) (o_crank g) (o_const g) (o_bool g) (o_fc g)).
+    pose proof (o_refresh_members_frame (refreshed_outs true act) g0) as (F1 & F2 & F3 & _ & F5 & F6 & _).
+    split.
+    - change (kinds_along k (projT (o_refresh_members (refreshed_outs true act) g0)) = true).
+      assert (Hpr : projT (o_refresh_members (refreshed_outs true act) g0) = gx) by (unfold projT; rewrite F1, F2, F3; unfold g0; cbn [o_nodes o_outputs o_scalar]; destruct gx; reflexivity).
+      rewrite Hpr. exact Hk2.
+    - exists e, o'. split; [apply (pext_const g); [exact F5 | exact F6 | exact Hext]|]. split; [|split; [|exact Ho']].
+      + apply (refreshed_padm g e ef gx); auto; [apply apply_taction_scalar | exact (frame_T g act e ef Hadm Hev Ed Hk1)].
+      + change (rung (o_graph (o_refresh_members (refreshed_outs true act) g0)) e = Some o').
+        assert (Hgr : o_graph (o_refresh_members (refreshed_outs true act) g0) = tg_graph gx) by (unfold o_graph, tg_graph; rewrite F1, F2; reflexivity).
+        rewrite Hgr. exact Hrun'.
   Qed.
 
   (* ================================================================ remove_redundant_reshape_pairs_ir *)
@@ -1110,14 +1273,14 @@ Section PSound.
     apply (loop_ok V teq (@teq_refl A) (@teq_trans A) sem ograph o_graph padm pext o_step_R (fun k g => axes_attr_along k (projR g) = true)).
     intros k g g' e0 e Hk Hadm Hext Hs o Hrun. exact (step_ok_R k g g' e0 e Hk Hadm Hext Hs o Hrun).
   Qed.
-  Lemma pass_ok_F : pass_ok (fun _ => True) (loop ograph (o_step_F tshF) fuel).
+  Lemma pass_ok_F : pass_ok (fun _ => True) (loop ograph o_step_F fuel).
   Proof.
-    apply (loop_ok V teq (@teq_refl A) (@teq_trans A) sem ograph o_graph padm pext (o_step_F tshF) (fun _ _ => True)).
+    apply (loop_ok V teq (@teq_refl A) (@teq_trans A) sem ograph o_graph padm pext o_step_F (fun _ _ => True)).
     intros k g g' e0 e _ Hadm Hext Hs o Hrun. split; [exact I|]. exact (step_ok_F g g' e0 e Hadm Hext Hs o Hrun).
   Qed.
-  Lemma pass_ok_T : pass_ok (fun g => kinds_along fuel (projT g) = true) (loop ograph (o_step_T tshT) fuel).
+  Lemma pass_ok_T : pass_ok (fun g => kinds_along fuel (projT g) = true) (loop ograph (o_step_T true) fuel).
   Proof.
-    apply (loop_ok V teq (@teq_refl A) (@teq_trans A) sem ograph o_graph padm pext (o_step_T tshT) (fun k g => kinds_along k (projT g) = true)).
+    apply (loop_ok V teq (@teq_refl A) (@teq_trans A) sem ograph o_graph padm pext (o_step_T true) (fun k g => kinds_along k (projT g) = true)).
     intros k g g' e0 e Hk Hadm Hext Hs o Hrun. exact (step_ok_T k g g' e0 e Hk Hadm Hext Hs o Hrun).
   Qed.
   Lemma pass_ok_P : pass_ok (fun _ => True) (loop ograph o_step_P fuel).
@@ -1146,8 +1309,8 @@ Section PSound.
 
   Definition impl_fn (runner : string) : ograph -> ograph :=
     if String.eqb runner "remove_redundant_transpose_reduce_ir" then loop ograph o_step_R fuel
-    else if String.eqb runner "remove_redundant_transpose_add_forests_ir" then loop ograph (o_step_F tshF) fuel
-    else if String.eqb runner "remove_redundant_transpose_pairs_ir" then loop ograph (o_step_T tshT) fuel
+    else if String.eqb runner "remove_redundant_transpose_add_forests_ir" then loop ograph o_step_F fuel
+    else if String.eqb runner "remove_redundant_transpose_pairs_ir" then loop ograph (o_step_T true) fuel
     else if String.eqb runner "remove_redundant_reshape_pairs_ir" then loop ograph o_step_P fuel
     else if String.eqb runner "remove_identity_reshapes_ir" then loop ograph o_step_I fuel
     else if String.eqb runner "remove_orphan_transposes_ir" then o_pass_O fuel
@@ -1244,41 +1407,42 @@ Definition opt_world (A : Type) (sem : string -> list nat -> list (tensor A) -> 
      exists c n, vs = [c] /\ o = [n] /\ shape n = shape c /\ forall b, denoteB c = Some b -> denoteB n = Some (negb b)) /\
   (forall op ats x r t rest o, op_type op = "Dropout"%string -> sem op ats (x :: r :: t :: rest) = Some o -> shape t = []).
 
-(* the declared dims the two Transpose fold passes leave behind are true (the part of them that is not modelled) *)
-Definition refresh_ok (A : Type) sem denoteZ denoteB (stepf : tgraph -> option tgraph) (tsh : ograph -> name -> option (list dim)) : Prop :=
-  forall g gx e ef, padm A sem denoteZ denoteB g e -> eval (tensor A) sem (o_nodes g) e = Some ef -> stepf (projT g) = Some gx ->
-    shape_ok A sem (tsh g) (tg_nodes gx) e.
-
+(* the folds of the two Transpose passes change no value outside the members they move, and those members are elementwise
+   nodes of the rewritten graph (what the simulations of TransposeRegion.v / TransposeAddForestSound.v establish
+   internally); from it the declared dims the rewired refresh leaves behind are PROVED true (refresh_fold_true) *)
+Definition frame_ok_T (A : Type) sem denoteZ denoteB : Prop :=
+  forall g act e ef, padm A sem denoteZ denoteB g e -> eval (tensor A) sem (o_nodes g) e = Some ef -> decide_step (projT g) = Some act ->
+    proved_kind_all (projT g) act = true -> frame_spec A sem (tg_nodes (apply_taction (projT g) act)) (refreshed_outs true act) e ef.
 (* every pass of the table that is not a verified model refines and keeps the graph admissible *)
 Definition unmodelled_ok (A : Type) sem denoteZ denoteB (U : string -> ograph -> ograph) : Prop :=
   Forall (fun r => pass_ok_on (tensor A) teq sem ograph o_graph (padm A sem denoteZ denoteB) (pext A denoteZ denoteB) (fun _ => True) (U r)) UNMODELLED_RUNNERS.
 
-Definition optimize_top tshF tshT fuel opset U : ograph -> ograph := run_passes ograph (impl_fn tshF tshT fuel opset U) top_runners.
-Definition optimize_body tshF tshT fuel opset U : ograph -> ograph := run_passes ograph (impl_fn tshF tshT fuel opset U) body_runners.
-Definition kinds_ok_top tshF tshT fuel opset U : ograph -> Prop := guards_along ograph (impl_fn tshF tshT fuel opset U) (guard_fn fuel) top_runners.
-Definition kinds_ok_body tshF tshT fuel opset U : ograph -> Prop := guards_along ograph (impl_fn tshF tshT fuel opset U) (guard_fn fuel) body_runners.
+Definition optimize_top fuel opset U : ograph -> ograph := run_passes ograph (impl_fn fuel opset U) top_runners.
+Definition optimize_body fuel opset U : ograph -> ograph := run_passes ograph (impl_fn fuel opset U) body_runners.
+Definition kinds_ok_top fuel opset U : ograph -> Prop := guards_along ograph (impl_fn fuel opset U) (guard_fn fuel) top_runners.
+Definition kinds_ok_body fuel opset U : ograph -> Prop := guards_along ograph (impl_fn fuel opset U) (guard_fn fuel) body_runners.
 
 Theorem optimize_graph_sound (A : Type) sem F Fcl reduce denoteZ mkZ denoteB mkB : opt_world A sem F Fcl reduce denoteZ mkZ denoteB mkB ->
-  forall tshF tshT, refresh_ok A sem denoteZ denoteB addforest_step tshF -> refresh_ok A sem denoteZ denoteB transpose_pair_step tshT ->
+  frame_ok_T A sem denoteZ denoteB ->
   forall fuel opset U, unmodelled_ok A sem denoteZ denoteB U ->
-  forall g e, kinds_ok_top tshF tshT fuel opset U g -> padm A sem denoteZ denoteB g e ->
+  forall g e, kinds_ok_top fuel opset U g -> padm A sem denoteZ denoteB g e ->
   forall o, run (tensor A) sem (o_graph g) e = Some o ->
-  exists e' o', pext A denoteZ denoteB (optimize_top tshF tshT fuel opset U g) e e' /\ padm A sem denoteZ denoteB (optimize_top tshF tshT fuel opset U g) e' /\
-                run (tensor A) sem (o_graph (optimize_top tshF tshT fuel opset U g)) e' = Some o' /\ Forall2 teq o o'.
+  exists e' o', pext A denoteZ denoteB (optimize_top fuel opset U g) e e' /\ padm A sem denoteZ denoteB (optimize_top fuel opset U g) e' /\
+                run (tensor A) sem (o_graph (optimize_top fuel opset U g)) e' = Some o' /\ Forall2 teq o o'.
 Proof.
-  intros (H1 & H2 & H3 & H4 & H5 & H6 & H7 & H8 & H9 & H10 & H11 & H12 & H13 & H14 & H15 & H16 & H17 & H18 & H19 & H20) tshF tshT HF HT fuel opset U HU.
+  intros (H1 & H2 & H3 & H4 & H5 & H6 & H7 & H8 & H9 & H10 & H11 & H12 & H13 & H14 & H15 & H16 & H17 & H18 & H19 & H20) HT fuel opset U HU.
   eapply optimize_pipeline_sound; eassumption.
 Qed.
 
 Theorem optimize_graph_sound_function_bodies (A : Type) sem F Fcl reduce denoteZ mkZ denoteB mkB : opt_world A sem F Fcl reduce denoteZ mkZ denoteB mkB ->
-  forall tshF tshT, refresh_ok A sem denoteZ denoteB addforest_step tshF -> refresh_ok A sem denoteZ denoteB transpose_pair_step tshT ->
+  frame_ok_T A sem denoteZ denoteB ->
   forall fuel opset U, unmodelled_ok A sem denoteZ denoteB U ->
-  forall g e, kinds_ok_body tshF tshT fuel opset U g -> padm A sem denoteZ denoteB g e ->
+  forall g e, kinds_ok_body fuel opset U g -> padm A sem denoteZ denoteB g e ->
   forall o, run (tensor A) sem (o_graph g) e = Some o ->
-  exists e' o', pext A denoteZ denoteB (optimize_body tshF tshT fuel opset U g) e e' /\ padm A sem denoteZ denoteB (optimize_body tshF tshT fuel opset U g) e' /\
-                run (tensor A) sem (o_graph (optimize_body tshF tshT fuel opset U g)) e' = Some o' /\ Forall2 teq o o'.
+  exists e' o', pext A denoteZ denoteB (optimize_body fuel opset U g) e e' /\ padm A sem denoteZ denoteB (optimize_body fuel opset U g) e' /\
+                run (tensor A) sem (o_graph (optimize_body fuel opset U g)) e' = Some o' /\ Forall2 teq o o'.
 Proof.
-  intros (H1 & H2 & H3 & H4 & H5 & H6 & H7 & H8 & H9 & H10 & H11 & H12 & H13 & H14 & H15 & H16 & H17 & H18 & H19 & H20) tshF tshT HF HT fuel opset U HU.
+  intros (H1 & H2 & H3 & H4 & H5 & H6 & H7 & H8 & H9 & H10 & H11 & H12 & H13 & H14 & H15 & H16 & H17 & H18 & H19 & H20) HT fuel opset U HU.
   eapply optimize_pipeline_sound_function_bodies; eassumption.
 Qed.
 
@@ -1305,7 +1469,7 @@ Example pipeline_runs :
                  mkNode "Reshape" [] [4; 9] [] [5]] [5]
                 (fun _ => None) (fun x => if Nat.eqb x 4 then Some [DInt 1; DInt 3] else None) (fun _ => false) (fun _ => None)
                 (fun x => if Nat.eqb x 9 then Some [1%Z; 3%Z] else None) (fun _ => None) None in
-  o_nodes (optimize_top (fun g => o_shape g) (fun g => o_shape g) 5 24 (fun _ g => g) g)
+  o_nodes (optimize_top 5 24 (fun _ g => g) g)
   = [mkNode "ReduceMean" [2; 1; 0] [1] [] [3]] /\
-  o_outputs (optimize_top (fun g => o_shape g) (fun g => o_shape g) 5 24 (fun _ g => g) g) = [3].
+  o_outputs (optimize_top 5 24 (fun _ g => g) g) = [3].
 Proof. vm_compute. split; reflexivity. Qed.
